@@ -52,6 +52,31 @@ def gen_cases(tier, seed):
             cfg["parts"] = [_smooth(p) for p in cfg["parts"]]
         cases.append({"kind": "flow", "cfg": cfg, "mode": "eval" if i % 2 else "train", "policy": "randn0.3",
                       "seed": env.subseed(seed, "c16f", i), "world": "f64", "tier_": tier, "cost": 5})
+    # conditioners with dropout in TRAINING mode (masks fixed by the re-seeded RNG): backward must work and be right -
+    # library residual nets for vectors and images, masked blocks of MADE
+    k = 0
+    for fam, image in (("coupling_affine", True), ("coupling_affine", False), ("coupling_rq", True), ("ar_affine", False), ("ar_rq", False)):
+        for rep in range(1 if tier == "quick" else 6):
+            cfg = None
+            for _ in range(60):
+                cfg = zoo.FAM[fam].sample_cfg(rng, tier)
+                if (len(cfg["shape"]) == 3) == image:
+                    break
+            cfg = _smooth(dict(cfg, dropout=0.3))
+            if "net" in cfg:
+                cfg["net"] = "resnet"
+            if fam.startswith("ar_"):
+                cfg["blocks"] = max(cfg["blocks"], 1)
+            cases.append({"kind": "transform", "cfg": cfg, "policy": "randn0.3", "mode": "train", "seed": env.subseed(seed, "c16do", k),
+                          "world": "f64", "tier_": tier, "cost": 3})
+            k += 1
+    # the affine coupling's GENERAL scale activation is capped at 3: where the cap is active the scale does not depend on the
+    # conditioner any more (its gradient there is zero) - conditioner outputs pushed to about 5
+    for i in range(3 if tier == "quick" else 20):
+        cfg = zoo.FAM["coupling_affine"].sample_cfg(rng, tier)
+        cfg = _smooth(dict(cfg, scale_act="general", net="resnet"))
+        cases.append({"kind": "transform", "cfg": cfg, "policy": "randn0.3", "mode": "eval", "final_bias": 5.0,
+                      "seed": env.subseed(seed, "c16cap", i), "world": "f64", "tier_": tier, "cost": 3})
     # never-initialised ActNorm whose first call is a training-mode forward (parameters collected before that call)
     for i, shp in enumerate(([3], [2, 2, 2], [4])):
         for wrap in (False, True):
@@ -163,6 +188,11 @@ def run_case(case):
         if kind == "transform":
             me = zoo.meta(cfg)
             model = zoo.make(cfg, case["policy"], seed, mode="eval", do_warm=not case.get("cold"))
+            if case.get("final_bias") is not None:
+                with torch.no_grad():
+                    for name_, m_ in model.named_modules():
+                        if name_.split(".")[-1] in ("final_layer", "l2") and getattr(m_, "bias", None) is not None:
+                            m_.bias.add_(case["final_bias"])
             label = cfg["fam"]
             dirs = ["forward", "inverse"] if not case.get("cold") else ["forward"]
         elif kind == "dist":
